@@ -105,6 +105,15 @@ func RunProgram(ctx context.Context, db *sql.DB, p gen.Program, o *Obs) error {
 		defer conn.Close()
 		pool = conn
 	}
+	var held *sql.Conn // TwoConns: the connection of the first step
+	if p.TwoConns {
+		c, err := db.Conn(ctx)
+		if err != nil {
+			return err
+		}
+		held = c
+		defer held.Close()
+	}
 	var tx *sql.Tx
 	var firstErr error
 	cur := 0
@@ -127,7 +136,7 @@ func RunProgram(ctx context.Context, db *sql.DB, p gen.Program, o *Obs) error {
 		}
 	}
 	defer mark()
-	for _, st := range p.Steps {
+	for si, st := range p.Steps {
 		if st.Group != cur {
 			if err := endTx(); err != nil {
 				if !p.ContinueOnError {
@@ -139,6 +148,8 @@ func RunProgram(ctx context.Context, db *sql.DB, p gen.Program, o *Obs) error {
 				var err error
 				if conn != nil {
 					tx, err = conn.BeginTx(ctx, nil)
+				} else if held != nil && si == 0 {
+					tx, err = held.BeginTx(ctx, nil)
 				} else {
 					tx, err = db.BeginTx(ctx, nil)
 				}
@@ -158,6 +169,9 @@ func RunProgram(ctx context.Context, db *sql.DB, p gen.Program, o *Obs) error {
 			}
 		}
 		var ex execer = pool
+		if held != nil && si == 0 {
+			ex = held
+		}
 		if tx != nil {
 			ex = tx
 		}
